@@ -174,11 +174,43 @@ class Facts:
         self.lb: dict[str, int] = {}       # atom -> lower bound (default 1)
         self.rel: list = []                # class relations: list of (atom, P) meaning atom := P + fresh>=0 for sign tests
         self.log: list = []
+        self.atom_index: dict = {}         # size atom -> (sequence name, index polynomial)   (shared registry)
+        self.partial: dict = {}            # sequence -> list of (representative sequence, lo, hi): equal on lo <= index < hi
+        self._busy = False
 
     def copy(self):
         f = Facts()
         f.sub, f.seq, f.lb, f.rel, f.log = dict(self.sub), dict(self.seq), dict(self.lb), list(self.rel), list(self.log)
+        f.atom_index = self.atom_index
+        f.partial = {k: list(v) for k, v in self.partial.items()}
         return f
+
+    def add_partial(self, seq: str, rep: str, lo, hi, why=""):
+        if seq == rep:
+            return
+        self.partial.setdefault(seq, []).append((rep, P.of(lo), P.of(hi)))
+        self.log.append(f"{seq}[k] := {rep}[k] for {P.of(lo)!r} <= k < {P.of(hi)!r} ({why})")
+
+    def _apply_partial(self, p: "P") -> "P":
+        if not self.partial or self._busy:
+            return p
+        m = {}
+        self._busy = True
+        try:
+            for a in p.atoms():
+                info = self.atom_index.get(a)
+                if not info:
+                    continue
+                seq, idx = info
+                for rep, lo, hi in self.partial.get(self.seq_rep(seq), []) + (self.partial.get(seq, []) if self.seq_rep(seq) != seq else []):
+                    if self.compare(idx, ">=", lo) is True and self.compare(idx, "<", hi) is True:
+                        na = f"{rep}[{self.norm(idx)!r}]"
+                        self.atom_index.setdefault(na, (rep, idx))
+                        m[a] = P.atom(na)
+                        break
+        finally:
+            self._busy = False
+        return p.subs(m) if m else p
 
     def seq_rep(self, s):
         seen = set()
@@ -204,7 +236,7 @@ class Facts:
             if q == p:
                 break
             p = q
-        return p
+        return self._apply_partial(p)
 
     def eq(self, a, b) -> bool:
         return self.norm(a) == self.norm(b)
